@@ -232,8 +232,8 @@ def expect_1d(enc, n):
         v = enc[1]
         if not -n <= v < n:
             return Exp(MUST_RAISE, t, reason="out_of_range")
-        out = MUST_SUCCEED if t == "int" else EITHER
-        return Exp(out, t, mode="scalar", sel=v % n, nontrivial=(t != "int" or v < 0))
+        # (numpy integers - np.argmax(h.frequencies) - are indices like any other: repaired together with the axis arguments)
+        return Exp(MUST_SUCCEED, t, mode="scalar", sel=v % n, nontrivial=(t != "int" or v < 0))
     if t == "slice":
         a, b, c = enc[1:4]
         if c is not None and c < 0:
